@@ -487,6 +487,7 @@ func runEnum(r *evid.Run, scr string) workerOut {
 			doType(ti, false)
 		}
 	})
+	f.runInputShapes(&res, addViol)
 	var sigs []string
 	for s := range viol {
 		sigs = append(sigs, s)
@@ -504,7 +505,6 @@ func runEnum(r *evid.Run, scr string) workerOut {
 		res.Samples = append(res.Samples, map[string]interface{}{"case": c, "verdict": v})
 	}
 	res.Confirm = f.confirm()
-	f.runInputShapes(&res, addViol)
 	return res
 }
 
@@ -708,6 +708,21 @@ func main() {
 		case "enum":
 			var c caseA
 			json.Unmarshal(a.Case, &c)
+			if c.Shape != "" {
+				for _, sh := range allShapes() {
+					if sh.Name != c.Shape {
+						continue
+					}
+					inOK, outOK, feeOK, distinct, pan := f.evalShape(common2.TxType(c.Type), c.H, sh, c.Outputs[0])
+					fmt.Printf("case %+v: input check ok=%v, output check ok=%v, fee check ok=%v, distinct outpoints=%d %s\n", c, inOK, outOK, feeOK, distinct, pan)
+					if bad, what := judgeShape(sh, distinct, c.Outputs[0]); bad && inOK && outOK && feeOK && pan == "" {
+						r.Violate(sig, what, map[string]interface{}{"kind": "enum", "case": c})
+					}
+				}
+				f.node.Close()
+				os.RemoveAll(scr)
+				r.Finish(evid.Coverage{})
+			}
 			v := f.eval(c)
 			om, im := mkSet(c.Outputs), mkSet(c.Inputs)
 			fmt.Printf("case %+v\n  per-output check: ok=%v %s\n  fee check: ok=%v %s\n  getTransactionFee=%d GetTxFee=%d exact outputs=%s inputs=%s\n",
@@ -778,7 +793,7 @@ func main() {
 		samples = append(samples, c)
 	}
 	r.Finish(evid.Coverage{
-		"evaluations":         x.Evals + x.OutChecks + int64(len(x.Confirm)),
+		"evaluations":         x.Evals + x.OutChecks + x.ShapeEvals + int64(len(x.Confirm)),
 		"distinct_nontrivial": len(x.Classes),
 		"rule": "every non-coinbase transaction type x heights x all output multisets over the 15-value alphabet (per-output check) x all input multisets over the 12-value alphabet (fee check on those that passed): accepted => no negative output and exact sum(outputs) <= exact sum(inputs) and GetTxFee exact; plus signed TransferAsset vectors on a light node through CheckTransactionSanity/Context and the pool. " +
 			"non-trivial = distinct (height, output count, per-output verdict, error) classes",
